@@ -113,6 +113,7 @@ TrStep ==
                                  [] e.e = "NevAdj" -> NevHits(e)
                                  [] e.e \in {"Trans", "Walk", "Checkpoints", "Seeds", "Draw", "CDraw", "Purity", "InitVec"} -> RngHits(e)
                                  [] e.e \in {"EndSort", "EndRng", "EndNevAdj", "Reset"} -> {}
+                                 [] e.e = "OutOfRange" -> {Hit("OutOfRange")}
                                  [] OTHER -> {Hit("UnknownRow")})
         /\ cov' = LET c0 == Bump(cov, "rows", 1) IN
                   CASE e.e = "Sort" ->
